@@ -125,6 +125,15 @@ def envs() -> dict[str, Any]:
 
         # an undefined type that describes what was missing: the description can quote data
         _ENVS["debug"] = impl.make_env(auto_escape=True, templates=TEMPLATES, shopify=True, undefined=DebugUndefined)
+        # a caching loader shared with an environment that does NOT escape, which has loaded every partial first
+        from liquid2 import CachingDictLoader
+
+        shared = CachingDictLoader(dict(TEMPLATES))
+        other = impl.make_env(auto_escape=False, loader=shared, shopify=True)
+        for name in TEMPLATES:
+            other.get_template(name)
+        _ENVS["shared"] = impl.make_env(auto_escape=True, loader=shared, shopify=True)
+        _ENVS["shared-other"] = other
     return _ENVS
 
 
@@ -151,6 +160,9 @@ def check_expr(expr: str, sink: str, form: str, env_name: str, res: ShardResult 
         return out
     src = sink.replace("@", expr)
     env = envs()[env_name]
+    if env_name == "shared":
+        for name in TEMPLATES:  # the two environments take turns
+            envs()["shared-other"].get_template(name)
     try:
         t = env.from_string(src)
     except LiquidError:
@@ -258,6 +270,7 @@ def run_shard(shard) -> ShardResult:
             # the asynchronous twins of every sink (each node has a separate render_to_output_async)
             combos += [(s, f, "shopify", "async") for s in SINKS for f in (("plain", "list", "hash-value") if nfilters == 0 else ("plain",))]
             combos += [(s, "plain", "debug", m) for s in SINKS for m in ("sync", "async")]
+            combos += [(s, "plain", "shared", m) for s in SINKS for m in ("sync", "async")]
         else:
             combos = [(SINKS[0], f, "shopify", "sync") for f in forms] + [(s, "plain", "shopify", "sync") for s in (SINKS[3], SINKS[7], SINKS[12])]
         for sink, form, en, mode in combos:
